@@ -6,7 +6,7 @@ that touch HH, DD, FC with vibrational signatures, Ntot and Nb.  Skeleton lemmas
 targets: Model/C10.v (vstates, venergy, fc_factor, vH, vD, vFC, vNb) and Model/C10x.v (vibmodes_of)."""
 import ast
 
-from translate import Untranslatable
+from translate import Untranslatable, _src_of
 import translate_c03 as t3
 from translate_c03 import (match_fn, match_projection, zhole, const_z, float01, which_name, ZE, RE, src_names, _defs, AGG, STA,
                            _rel_attr_store)
@@ -356,4 +356,104 @@ def static(repo):
             "aggregate_base.py:AggregateBase.build (internal-units context around _build)",
             "aggregate_base.py:AggregateBase._build (statements touching HH, DD, FC, HamOp, TrDMOp, FCf, all_states; Ntot; Nb loop)",
             "aggregate_base.py:AggregateBase.total_number_of_states", "aggregate_base.py:AggregateBase.number_of_states_in_band"]
-    return txt, what
+    t_store, w_store = k_store(repo)
+    return txt + t_store, what + w_store
+
+
+# ----------------------------------------------------------------------------------------------- the look-up table class (ho.py)
+# fcstorage keeps two parallel Python lists.  Its five methods are translated statement by statement into transformers of the record
+# Proofs/C10store.v `store` (fail-closed: only the statement forms below are accepted) and proved equal to st_new / st_lookup /
+# st_index / st_add / st_get, for which `table_is_function_of_shift` holds: every request of fc_factor is answered with the matrix
+# computed for its own shift.
+_FIELDS = {"_shifts": "shifts", "_fcs": "fcs"}
+
+
+def _sattr(node):
+    import ast as _a
+    if isinstance(node, _a.Attribute) and isinstance(node.value, _a.Name) and node.value.id == "self" and node.attr in _FIELDS:
+        return _FIELDS[node.attr]
+    raise Untranslatable("fcstorage: attribute %s" % _a.unparse(node))
+
+
+def _store_method(fn, params):
+    """-> (kind, gallina) for one method body; params: python parameter name -> Coq variable"""
+    import ast as _a
+    body = [s for s in fn.body if not (isinstance(s, _a.Expr) and isinstance(s.value, _a.Constant))]
+    cur = {"shifts": "(shifts s)", "fcs": "(fcs s)"}
+
+    def arg(n):
+        if isinstance(n, _a.Name) and n.id in params:
+            return params[n.id]
+        raise Untranslatable("fcstorage: argument %s" % _a.unparse(n))
+    for k, st in enumerate(body):
+        last = k == len(body) - 1
+        if isinstance(st, _a.Assign) and len(st.targets) == 1 and isinstance(st.value, _a.List) and not st.value.elts:
+            cur[_sattr(st.targets[0])] = "[]"
+            continue
+        if (isinstance(st, _a.Expr) and isinstance(st.value, _a.Call) and isinstance(st.value.func, _a.Attribute)
+                and st.value.func.attr == "append" and len(st.value.args) == 1 and not st.value.keywords):
+            f = _sattr(st.value.func.value)
+            cur[f] = "(%s ++ [%s])" % (cur[f], arg(st.value.args[0]))
+            continue
+        if isinstance(st, _a.Return) and last:
+            v = st.value
+            if (isinstance(v, _a.Call) and isinstance(v.func, _a.Attribute) and v.func.attr == "index" and len(v.args) == 1
+                    and not v.keywords):
+                return "index", "index_of K keqb %s %s" % (arg(v.args[0]), cur[_sattr(v.func.value)])
+            if isinstance(v, _a.Subscript):
+                return "get", "nth_error %s %s" % (cur[_sattr(v.value)], arg(v.slice))
+            if isinstance(v, _a.Constant) and v.value is False and k == 1:
+                # if self.A.count(x) > N: return True ; return False
+                t = body[0]
+                if (isinstance(t, _a.If) and not t.orelse and len(t.body) == 1 and isinstance(t.body[0], _a.Return)
+                        and isinstance(t.body[0].value, _a.Constant) and t.body[0].value.value is True
+                        and isinstance(t.test, _a.Compare) and len(t.test.ops) == 1 and isinstance(t.test.ops[0], _a.Gt)
+                        and isinstance(t.test.comparators[0], _a.Constant) and isinstance(t.test.comparators[0].value, int)):
+                    c = t.test.left
+                    if (isinstance(c, _a.Call) and isinstance(c.func, _a.Attribute) and c.func.attr == "count" and len(c.args) == 1):
+                        return "lookup", "if Nat.ltb %d (count K keqb %s %s) then true else false" % (
+                            t.test.comparators[0].value, arg(c.args[0]), cur[_sattr(c.func.value)])
+            raise Untranslatable("fcstorage: return %s" % _a.unparse(st))
+        if isinstance(st, _a.If) and k == 0 and len(body) == 2:
+            continue            # handled together with the final `return False`
+        raise Untranslatable("fcstorage: statement %s" % _a.unparse(st)[:80])
+    return "state", "mkStore %s %s" % (cur["shifts"], cur["fcs"])
+
+
+def k_store(repo):
+    f = repo + "/quantarhei/qm/oscillators/ho.py"
+    out = {}
+    want = {"__init__": ([], "state"), "lookup": (["k"], "lookup"), "index": (["k"], "index"), "add": (["k", "v"], "state"), "get": (["i"], "get")}
+    cls = _src_of(f, "fcstorage")
+    import ast as _a
+    methods = [n.name for n in cls.body if isinstance(n, _a.FunctionDef)]
+    if sorted(methods) != sorted(want):
+        raise Untranslatable("fcstorage methods %s" % methods)
+    for name, (coqargs, kind) in want.items():
+        fn = _src_of(f, "fcstorage." + name)
+        ps = [a.arg for a in fn.args.args][1:]
+        if len(ps) != len(coqargs) or fn.args.defaults or fn.args.kwonlyargs or fn.args.vararg or fn.args.kwarg:
+            raise Untranslatable("fcstorage.%s signature" % name)
+        k2, g = _store_method(fn, dict(zip(ps, coqargs)))
+        if k2 != kind:
+            raise Untranslatable("fcstorage.%s is a %s where a %s is expected" % (name, k2, kind))
+        out[name] = g
+    return """
+(* ---- ho.py: class fcstorage, GENERATED ---- *)
+From QV Require Import Proofs.C10store.
+Section GenStore.
+  Variables (K V : Type) (keqb : K -> K -> bool).
+  Definition gs_new (s : store K V) : store K V := %(__init__)s.
+  Definition gs_lookup (k : K) (s : store K V) : bool := %(lookup)s.
+  Definition gs_index (k : K) (s : store K V) : option nat := %(index)s.
+  Definition gs_add (k : K) (v : V) (s : store K V) : store K V := %(add)s.
+  Definition gs_get (i : nat) (s : store K V) : option V := %(get)s.
+  Lemma gen_store_is_model k v i s :
+    gs_new s = st_new /\\ gs_lookup k s = st_lookup keqb k s /\\ gs_index k s = st_index keqb k s /\\
+    gs_add k v s = st_add k v s /\\ gs_get i s = st_get i s.
+  Proof.
+    unfold gs_new, gs_lookup, gs_index, gs_add, gs_get, st_new, st_lookup, st_index, st_add, st_get.
+    repeat split; try reflexivity. destruct (Nat.ltb _ _); reflexivity.
+  Qed.
+End GenStore.
+""" % out, ["ho.py:fcstorage (__init__, lookup, index, add, get)"]
